@@ -269,9 +269,14 @@ def _run_bindings(ctx):
     ctx.log("walks: %s" % json.dumps({k: summ[k] for k in ("walks", "steps", "queries", "covered", "groups", "bad", "flaky", "discards")}))
 
     sample_bad = []
+    nbad = 0
     for r in res:
         if r.get("kind") != "bad":
             continue
+        nbad += 1
+        if nbad > 60:
+            # Every registered disagreement becomes a replay file; sixty are enough.
+            break
         if r.get("what") == "query":
             key = classify_query(r["q"], r["got"])
             rec = {"dir": "A", "what": "query", "walk": r["walk"], "states": r["states"], "table": table,
@@ -353,6 +358,7 @@ def _run_bindings(ctx):
             else:
                 unknown.append((ln, key, rec))
         stuck = verdict["stuck"]
+        unknown = unknown[:20]
         if unknown or stuck:
             # Reproduce: the driver is deterministic in (seed, history); run it again.
             rows2, sb2 = run_history(ctx, hst, nrec, mem=mem)
